@@ -90,14 +90,21 @@ impl StreamHandler for TcpProxyHandler {
                 crate::server::udp_proxy::handle_udp_over_tcp(stream).await
             } else {
                 // Regular TCP proxy
-                proxy_tcp_connection_with_synack_internal(
+                let stream_for_fin = Arc::clone(&stream);
+                let result = proxy_tcp_connection_with_synack_internal(
                     stream,
                     session,
                     stream_id,
                     peer_version,
                     destination,
                 )
-                .await
+                .await;
+                if result.is_err() {
+                    // The request ended without a relay (refused, or the verdict could not be sent): announce the
+                    // end of the stream so that both sessions drop its state
+                    stream_for_fin.send_fin();
+                }
+                result
             }
         })
     }
